@@ -24,10 +24,21 @@ pub enum Mode {
     Rest,
 }
 
+#[derive(Clone, Copy, Debug, PartialEq, Eq)]
+pub enum Action {
+    /// the level's own code never mentions the name (apart from a let initialiser)
+    Untouched,
+    Read,
+    /// assigned before the inner closure is created, then read
+    WriteBeforeCapture,
+    /// read, then assigned after the inner closure exists (and was called once)
+    WriteAfterCapture,
+}
+
 #[derive(Clone, Debug)]
 pub struct Level {
     pub modes: Vec<Mode>,
-    pub pattern: usize,
+    pub actions: Vec<Action>,
 }
 
 #[derive(Clone, Debug)]
@@ -39,8 +50,11 @@ pub struct Skeleton {
 pub struct Bounds {
     pub max_levels: usize,
     pub names: usize,
-    /// number of binding modes enumerated (3 = free/param/define, 4 adds let, 5 adds rest)
+    /// number of binding modes enumerated: 3 = free/param/define, 4 adds let (whose
+    /// initialiser reads the outer binding of the same name), 5 adds rest
     pub modes: usize,
+    /// number of actions enumerated: 2 = untouched/write-after-capture, 4 = all
+    pub actions: usize,
 }
 
 pub fn decode(choose: &mut dyn FnMut(usize) -> usize, b: &Bounds) -> Skeleton {
@@ -48,12 +62,19 @@ pub fn decode(choose: &mut dyn FnMut(usize) -> usize, b: &Bounds) -> Skeleton {
     let mut levels = vec![];
     for _ in 0..nlevels {
         let mut modes = vec![];
+        let mut actions = vec![];
         let mut have_rest = false;
         for _ in 0..b.names {
             let m = match choose(b.modes) {
                 0 => Mode::Free,
                 1 => Mode::Param,
-                2 => Mode::Define,
+                2 => {
+                    if b.modes == 3 {
+                        Mode::Let
+                    } else {
+                        Mode::Define
+                    }
+                }
                 3 => Mode::Let,
                 _ => {
                     if have_rest {
@@ -65,9 +86,14 @@ pub fn decode(choose: &mut dyn FnMut(usize) -> usize, b: &Bounds) -> Skeleton {
                 }
             };
             modes.push(m);
+            let a = if b.actions == 2 {
+                [Action::Untouched, Action::WriteAfterCapture][choose(2)]
+            } else {
+                [Action::Read, Action::Untouched, Action::WriteBeforeCapture, Action::WriteAfterCapture][choose(4)]
+            };
+            actions.push(a);
         }
-        let pattern = choose(4);
-        levels.push(Level { modes, pattern });
+        levels.push(Level { modes, actions });
     }
     Skeleton { levels, names: b.names }
 }
@@ -88,78 +114,72 @@ impl Skeleton {
     }
 
     pub fn captured_assigned_after_capture(&self) -> bool {
-        // patterns 2 and 3 write after the inner closure exists
-        self.levels.len() >= 2 && self.levels[..self.levels.len() - 1].iter().any(|l| l.pattern >= 2)
+        self.levels.len() >= 2
+            && self.levels[..self.levels.len() - 1]
+                .iter()
+                .any(|l| l.actions.iter().any(|a| *a == Action::WriteAfterCapture))
     }
 
     pub fn id(&self) -> String {
         self.levels
             .iter()
             .map(|l| {
-                let m: String = l
-                    .modes
+                l.modes
                     .iter()
-                    .map(|m| match m {
-                        Mode::Free => 'f',
-                        Mode::Param => 'p',
-                        Mode::Define => 'd',
-                        Mode::Let => 'l',
-                        Mode::Rest => 'r',
+                    .zip(l.actions.iter())
+                    .map(|(m, a)| {
+                        let m = match m {
+                            Mode::Free => 'f',
+                            Mode::Param => 'p',
+                            Mode::Define => 'd',
+                            Mode::Let => 'l',
+                            Mode::Rest => 'r',
+                        };
+                        let a = match a {
+                            Action::Untouched => '-',
+                            Action::Read => 'r',
+                            Action::WriteBeforeCapture => 'b',
+                            Action::WriteAfterCapture => 'a',
+                        };
+                        format!("{}{}", m, a)
                     })
-                    .collect();
-                format!("{}{}", m, l.pattern)
+                    .collect::<String>()
             })
             .collect::<Vec<_>>()
             .join("/")
     }
 
-    fn reads(&self, lvl: usize, when: &str) -> Vec<Sx> {
+    fn reads(&self, lvl: usize, when: &str, which: &dyn Fn(Action) -> bool) -> Vec<Sx> {
         (0..self.names)
+            .filter(|n| lvl >= self.levels.len() || which(self.levels[lvl].actions[*n]))
             .map(|n| call("probe", vec![q(&format!("L{}-{}-{}", lvl, when, NAMES[n])), s(NAMES[n])]))
             .collect()
     }
 
-    fn writes(&self, lvl: usize, when: &str) -> Vec<Sx> {
+    fn writes(&self, lvl: usize, when: &str, which: &dyn Fn(Action) -> bool) -> Vec<Sx> {
         (0..self.names)
+            .filter(|n| which(self.levels[lvl].actions[*n]))
             .map(|n| call("set!", vec![s(NAMES[n]), q(&format!("w{}-{}-{}", lvl, when, NAMES[n]))]))
             .collect()
     }
 
-    /// arguments for calling level `lvl` (0-based) given its parameter list
+    /// arguments for calling level `lvl` (0-based): parameters in name order, then two rest arguments
     fn args_for(&self, lvl: usize, tag: &str) -> Vec<Sx> {
         let l = &self.levels[lvl];
-        let mut args = vec![];
+        let mut params = vec![];
+        let mut rest = vec![];
         for n in 0..self.names {
             match l.modes[n] {
-                Mode::Param => args.push(q(&format!("arg{}-{}-{}", lvl, tag, NAMES[n]))),
+                Mode::Param => params.push(q(&format!("arg{}-{}-{}", lvl, tag, NAMES[n]))),
                 Mode::Rest => {
-                    args.push(q(&format!("rest{}-{}-1", lvl, tag)));
-                    args.push(q(&format!("rest{}-{}-2", lvl, tag)));
+                    rest.push(q(&format!("rest{}-{}-1", lvl, tag)));
+                    rest.push(q(&format!("rest{}-{}-2", lvl, tag)));
                 }
                 _ => {}
             }
         }
-        // Rest must be last in the formals: arguments were pushed in name order, the
-        // formals are built the same way (params in name order, rest at the end)
-        let l2 = &self.levels[lvl];
-        if l2.modes.iter().any(|m| *m == Mode::Rest) {
-            // reorder: params first, then the two rest args
-            let mut params = vec![];
-            let mut rest = vec![];
-            for n in 0..self.names {
-                match l2.modes[n] {
-                    Mode::Param => params.push(q(&format!("arg{}-{}-{}", lvl, tag, NAMES[n]))),
-                    Mode::Rest => {
-                        rest.push(q(&format!("rest{}-{}-1", lvl, tag)));
-                        rest.push(q(&format!("rest{}-{}-2", lvl, tag)));
-                    }
-                    _ => {}
-                }
-            }
-            params.extend(rest);
-            return params;
-        }
-        args
+        params.extend(rest);
+        params
     }
 
     fn lambda(&self, lvl: usize) -> Sx {
@@ -183,55 +203,36 @@ impl Skeleton {
                 body.push(call("define", vec![s(NAMES[n]), q(&format!("def{}-{}", lvl, NAMES[n]))]));
             }
         }
-        // statements
+        let touched = |a: Action| a != Action::Untouched;
+        let before = |a: Action| a == Action::WriteBeforeCapture;
+        let after = |a: Action| a == Action::WriteAfterCapture;
         let mut stmts: Vec<Sx> = vec![];
-        match l.pattern {
-            0 => stmts.extend(self.reads(lvl, "pre")),
-            1 => {
-                stmts.extend(self.writes(lvl, "pre"));
-                stmts.extend(self.reads(lvl, "pre"));
-            }
-            2 => stmts.extend(self.reads(lvl, "pre")),
-            _ => stmts.extend(self.writes(lvl, "pre")),
-        }
+        stmts.extend(self.writes(lvl, "pre", &before));
+        stmts.extend(self.reads(lvl, "pre", &touched));
         if last {
-            stmts.extend(self.writes(lvl, "in"));
-            stmts.extend(self.reads(lvl, "post"));
+            stmts.extend(self.writes(lvl, "in", &after));
+            stmts.extend(self.reads(lvl, "post", &touched));
             stmts.push(q(&format!("done{}", lvl)));
         } else {
             let inner = self.lambda(lvl + 1);
-            let mut inside: Vec<Sx> = vec![];
             let call_inner = |tag: &str| -> Sx {
                 let mut v = vec![s("inner")];
                 v.extend(self.args_for(lvl + 1, tag));
                 Sx::List(v)
             };
-            match l.pattern {
-                0 | 1 => {
-                    inside.push(call_inner("x"));
-                    inside.extend(self.reads(lvl, "post"));
-                }
-                2 => {
-                    inside.extend(self.writes(lvl, "mid"));
-                    inside.push(call_inner("x"));
-                    inside.extend(self.reads(lvl, "post"));
-                }
-                _ => {
-                    inside.push(call_inner("x"));
-                    inside.extend(self.writes(lvl, "mid"));
-                    inside.push(call_inner("y"));
-                    inside.extend(self.reads(lvl, "post"));
-                }
-            }
+            let mut inside: Vec<Sx> = vec![call_inner("x")];
+            inside.extend(self.writes(lvl, "mid", &after));
+            inside.push(call_inner("y"));
+            inside.extend(self.reads(lvl, "post", &touched));
             inside.push(s("inner"));
             let mut letf = vec![s("let"), Sx::List(vec![Sx::List(vec![s("inner"), inner])])];
             letf.extend(inside);
             stmts.push(Sx::List(letf));
         }
-        // let-bound names wrap the statements
+        // let-bound names wrap the statements; the initialiser reads the OUTER binding of the same name
         let lets: Vec<Sx> = (0..self.names)
             .filter(|n| l.modes[*n] == Mode::Let)
-            .map(|n| Sx::List(vec![s(NAMES[n]), q(&format!("let{}-{}", lvl, NAMES[n]))]))
+            .map(|n| Sx::List(vec![s(NAMES[n]), call("cons", vec![q(&format!("let{}", lvl)), s(NAMES[n])])]))
             .collect();
         if !lets.is_empty() {
             let mut letf = vec![s("let"), Sx::List(lets)];
@@ -261,13 +262,21 @@ impl Skeleton {
             callf.extend(self.args_for(i, "t"));
             forms.push(call("define", vec![s(&format!("c{}", i + 1)), Sx::List(callf)]));
         }
-        // second activations, after the creators returned, in reverse order
+        // second activations, after the creators returned, innermost first ...
         for i in (0..n).rev() {
             let mut callf = vec![s(&format!("c{}", i))];
             callf.extend(self.args_for(i, "u"));
             forms.push(Sx::List(callf));
         }
-        forms.extend(self.reads(9, "top"));
+        // ... and once more outermost first: closures of the FIRST activations are used
+        // after later activations of their creators ran (locations must be per activation)
+        for i in 0..n {
+            let mut callf = vec![s(&format!("c{}", i))];
+            callf.extend(self.args_for(i, "v"));
+            forms.push(Sx::List(callf));
+        }
+        let all = |_a: Action| true;
+        forms.extend(self.reads(9, "top", &all));
         forms.push(call("reverse", vec![s("log")]));
         forms
     }
